@@ -343,7 +343,13 @@ def baseline_off():
     sys.exit(r.returncode)
 
 
-NOT_APPLICABLE = []
+def not_applicable():
+    out = []
+    for line in open(os.path.join(VERIF, "properties.jsonl")):
+        pid = json.loads(line)["id"]
+        if pid not in PROPS:
+            out.append(dict(property_id=pid, reason="check under construction in this session; not claimed until it runs"))
+    return out
 
 
 def manifest():
@@ -381,7 +387,7 @@ def manifest():
         checks=checks,
         notes="All checks run the real crate from /repo's working tree. Known findings: /verif/known_findings.jsonl. "
               "Detection demonstration: /verif/mutants and /verif/seeded.",
-        not_applicable=NOT_APPLICABLE,
+        not_applicable=not_applicable(),
     )
     json.dump(m, open(os.path.join(VERIF, "MANIFEST.json"), "w"), indent=1)
     print("MANIFEST.json written with", len(checks), "checks")
